@@ -376,6 +376,10 @@ func coordinate(id, tier string) int {
 		fmt.Fprintln(os.Stderr, "infrastructure failure: at least one worker died without attribution; no verdict")
 		return 2
 	}
+	if merged.Counters["harness_errors"] > 0 {
+		fmt.Fprintf(os.Stderr, "infrastructure failure: the harness reported %d internal error(s): %v\n", merged.Counters["harness_errors"], merged.Notes)
+		return 2
+	}
 
 	known := loadKnown()
 	os.MkdirAll(filepath.Join(root(), "replays"), 0o755)
